@@ -157,7 +157,12 @@ def gen_mod(rng, spec, protected, counter):
     # update
     partial = {"name": v["name"]}
     if v["type"] in ("float", "int") and chance(rng, 0.4):
-        partial["default"] = pick(rng, [2.5, -1.0, 40.0]) if v["type"] == "float" else pick(rng, [3, -2, 40])
+        # (the zero of the type is a declared value like any other)
+        partial["default"] = pick(rng, [2.5, -1.0, 40.0, 0.0]) if v["type"] == "float" else pick(rng, [3, -2, 40, 0])
+    elif v["type"] == "bool" and chance(rng, 0.4):
+        partial["default"] = not v.get("default", False)
+    elif v["type"] == "str" and chance(rng, 0.4):
+        partial["default"] = "" if v.get("default") else "upd"[: v.get("max_length", 3)]
     if chance(rng, 0.3):
         partial["label"] = f"updated {v['name']}"
     if v["unit"] != "eternity" and i > 0 and chance(rng, 0.7):
